@@ -1,6 +1,6 @@
 SPECIFICATION Spec
 CONSTANTS
-  FIXED = FALSE
+  FIXED = TRUE
   MAXN = 3
   FAULTS = 0
 INVARIANTS NormalInOrder HeadersAtBoundaries NormalIsBasic DeferredOrdered DeferOnlyAtEnd DecoderOnlyForNormal FakeWasExtracted DeferWasExtracted FakeAtRightPlace FakeOnlyAtEndUnderEOF NeverFakeUnderPlain EofMeansAllDone
